@@ -108,13 +108,16 @@ impl ReadXml for PartialReply {
                     if ns == Self::TAG_NS
                         && tag.local_name().as_ref() == Self::TAG_NAME.as_bytes() =>
                 {
-                    let end = tag.to_end();
                     tracing::debug!("trying to parse message-id");
                     message_id = tag
                         .try_get_attribute("message-id")?
                         .map(MessageId::try_from)
                         .transpose()?;
-                    _ = reader.read_to_end(end.name());
+                    // the message-id is all that is needed to hand the reply to the request it
+                    // belongs to: whatever may be wrong with the rest of the message is reported
+                    // to that request when it parses the reply, not to whichever request happened
+                    // to be reading from the transport
+                    break;
                 }
                 (_, Event::Comment(_) | Event::Decl(_)) => continue,
                 (_, Event::Eof) => break,
